@@ -183,7 +183,12 @@ type errVerdict struct {
 }
 
 // checkErrValue decides the rule for one error value.
-func checkErrValue(ec *errCall, v ssa.Value) errVerdict {
+func checkErrValue(ec *errCall, v ssa.Value) errVerdict { return checkErrValueCut(ec, v, nil) }
+
+// checkErrValueCut is checkErrValue with sanctioned edges: cut(if) returns the index
+// of a successor edge that is not followed (an audited, separately verified way to
+// continue with a non-nil error), or -1.
+func checkErrValueCut(ec *errCall, v ssa.Value, cut func(*ssa.If) int) errVerdict {
 	al := aliasesOf(v)
 	fn := ec.fn
 	start := ec.call.(ssa.Instruction)
@@ -257,6 +262,16 @@ func checkErrValue(ec *errCall, v ssa.Value) errVerdict {
 							walk(nonNil, 0)
 						}
 						return
+					}
+					if cut != nil {
+						if ci := cut(ifi); ci >= 0 {
+							o := b.Succs[1-ci]
+							if !seen[o] {
+								seen[o] = true
+								walk(o, 0)
+							}
+							return
+						}
 					}
 				}
 			}
